@@ -244,7 +244,7 @@ def run(R):
     R.require(*need)
     R.assumptions = ["equivalents of Not Defined as listed in the property (spec/tables.ND_EQUIV)",
                      "v2: a slot is compared when defined before the transform"]
-    n = R.pick(90, 1500)
+    n = R.pick(90, 4000)
     for ver in T.VERSIONS:
         R.pmap("shard", [(ver, i, n, R.seed) for i in range(16)])
     for ver in T.VERSIONS:
